@@ -185,7 +185,9 @@ def check(case, rec=None):
                                                  symmetry=(symname if case.get("uniq") == "matching" else "triclinic"),
                                                  latticesymmetry=latsym, tol=0.05,
                                                  omega_float=case["omfloat"], omega_slop=0.25, sort_npks=False,
-                                                 tthrange=None, newfltfile=None)
+                                                 tthrange=None,
+                                                 newfltfile=(os.path.join(d, "unindexed.flt")
+                                                             if case["seed"] % 2 else None))
                     ok, e = guard(mm.makemap, opts)
                     if ok:
                         # makemap is run iteratively in practice: one simplex pass of 100 iterations per grain need
@@ -233,6 +235,17 @@ def check(case, rec=None):
                 fails.append(fail("translation", "grain %d: refined translation %s, truth %s (off by %.2f um, limit "
                                   "%g); %s" % (k, np.round(np.asarray(g.translation), 2).tolist(),
                                                np.round(t, 2).tolist(), et, lim_t, where), what="translation"))
+        # makemap -F: the peaks no grain took, written apart; the main peak file is unaffected by the option
+        unidx = os.path.join(d, "unindexed.flt")
+        if case["route"] == "makemap" and os.path.exists(unidx):
+            ok, cu = guard(columnfile.columnfile, unidx)
+            ok2, cn = guard(columnfile.columnfile, flt + ".new")
+            if ok2 and "labels" in cn.titles:
+                nun = int((np.asarray(cn.labels) < -0.5).sum())
+                nwr = cu.nrows if ok else 0            # a file without rows need not be readable
+                if nwr != nun:
+                    fails.append(fail("unindexed", "makemap -F wrote %d unindexed peaks, the peak file has %d peaks "
+                                      "without a grain; %s" % (nwr, nun, where), what="unindexed"))
         # peak assignment and saved peak file
         ok, cf = guard(columnfile.columnfile, flt + ".new")
         if not ok:
